@@ -210,6 +210,19 @@ def result_order(ctx, s, fn, filt):
     ctx.functions.add(cmpf.path)
 
 
+def _over_index_range(ctx, s, fn, next_info):
+    """the iterator advanced by this next() is (moved from) the result of one of Lmdb's *_iter range constructors - also
+    when the loop was written over a generic iterator parameter of a helper that was inlined here"""
+    from ..srules import leaf_values
+    an = ctx.E.an(fn)
+    vals = [next_info["args"][0]] + [p for p in next_info["pre"][:1] if p is not None]
+    for v in vals:
+        for l in leaf_values(an, v) or [v]:
+            if contains_value(l, lambda x: x[0] == "call" and s.nice(x[1]).startswith("pocket_db::Lmdb::") and s.nice(x[1]).endswith("_iter")):
+                return True
+    return False
+
+
 def limit_exits(ctx, s, fn, filt):
     """count-based exits only inside loops driven by a reverse-time LMDB range; `since` only raised"""
     an = ctx.E.an(fn)
@@ -244,7 +257,7 @@ def limit_exits(ctx, s, fn, filt):
                 # the loop's own driver: the next() whose None edge leaves the loop; take the one in the header region
                 if drv is None or cfg.dominates(b, drv[0]):
                     drv = (b, info)
-        ranged = drv is not None and (drv[1]["callee"] or "").startswith("heed::iterator::range::")
+        ranged = drv is not None and ((drv[1]["callee"] or "").startswith("heed::iterator::range::") or _over_index_range(ctx, s, fn, drv[1]))
         sp = fn.blocks[e.src]["term"]["sp"]
         # what is counted: a per-range counter (reset before this loop) or, for a single-range plan, the result set
         nested = any(H2 != inner and body < b2 for H2, b2 in loops.items())
@@ -363,7 +376,7 @@ def other_exits(ctx, s, fn, filt):
         for b in body:
             info = an.term.get(b)
             if info and info["kind"] == "call" and (info["base"] or "").endswith("Iterator::next") and \
-                    (info["callee"] or "").startswith("heed::iterator::range::"):
+                    ((info["callee"] or "").startswith("heed::iterator::range::") or _over_index_range(ctx, s, fn, info)):
                 if drv is None or cfg.dominates(b, drv[0]):
                     drv = (b, info)
         if drv is None:
